@@ -78,7 +78,8 @@ _DECIDING = ["grid2d.array.container", "grid2d.array.pairing", "grid2d.grid.pair
              "project.grid1d.pairing", "project.direction_same_for_1d_and_2d", "project.irregular.pairing", "radial.outside_unchanged", "radial.inside_radius",
              "radial.inside_ray", "radial.result_pairing", "transform.received", "transform.pairing",
              "transform.not_twice"]
-MIN_MONITORS = {"*": dict({k: 20 for k in _DECIDING}, **{"radial.plain_array_sequence": 20, "radial.callers_coordinates_untouched": 20})}
+MIN_MONITORS = {"*": dict({k: 20 for k in _DECIDING}, **{"radial.plain_array_sequence": 20, "radial.callers_coordinates_untouched": 20,
+                                                                      "grid1d.after_in_place_edit": 20})}
 
 RADIAL_MIN = {"VerifC17Small": 1e-8, "VerifC17Mid": 0.3, "VerifC17Big": 2.5}
 
@@ -665,6 +666,28 @@ def check_grid1d(ctx, i):
             exp = tags.t(line)
             ctx.check(isinstance(res, aa.Array1D) and _np(res.slim).shape == exp.shape and np.array_equal(_np(res.slim), exp),
                       "project.grid1d.pairing", result_type=type(res).__name__, expected=exp, got=lambda: _np(res), **W)
+    # history: the same Grid1D object is edited in place (grid[k] = value, e.g. to move a point off a singular centre) and
+    # evaluated again: the functions must now receive the line through the coordinates the grid holds NOW
+    if n >= 1:
+        k = int(r.integers(n))
+        x2 = x.copy()
+        x2[k] = float(x[k] + (0.37 + r.random()) * ps)
+        try:
+            grid[k] = x2[k]
+            edited = np.array_equal(np.array(_np(grid.slim), dtype=float).reshape(-1), x2)
+        except Exception as e:
+            edited = False
+            ctx.skipped["grid1d:in_place_assignment_not_supported"] += 1
+        if edited:
+            tol2 = 1e-10 * max(1.0, float(np.max(np.abs(x2))))
+            for meth in ("f_array", "f_grid"):
+                ok, res, log = call_logged(ctx, p, "grid1d.exception", getattr(p, meth), grid)
+                if ok:
+                    line = log[0][1] if len(log) == 1 else None
+                    good = line is not None and on_one_line(line, x2, tol2)
+                    if good and meth == "f_array":
+                        good = np.array_equal(_np(res.slim), tags.t(line))
+                    ctx.check(good, "grid1d.after_in_place_edit", method=meth, edited_index=k, coordinates_now=x2, received=line, **W)
     ctx.case("grid1d", m1, ps, org, x, prof_name, angle, repr(tags.c), nontrivial=n >= 2,
              cls=["grid1d", "grid1d:" + kind, "angle:" + ("none" if angle is None else "set"), "points:%s" % ("1" if n == 1 else "2-5" if n <= 5 else "6+")],
              sample=lambda: {"kind": "grid1d", "grid_kind": kind, "mask_1d": m1.astype(int).tolist(), "pixel_scale": ps, "origin": org,
